@@ -58,6 +58,9 @@ type caseDesc struct {
 	// hands both directions to BidirectionalCopy.
 	PeekUp   int `json:"relay_peeks_uplink,omitempty"`
 	PeekDown int `json:"relay_peeks_downlink,omitempty"`
+	// PeekDownConsume: the relay keeps the peeked downlink bytes for itself (a preamble it strips) instead of
+	// forwarding them; the client must then receive the stream without them.
+	PeekDownConsume bool `json:"relay_consumes_downlink_peek,omitempty"`
 }
 
 var writeSizes = []int{1, 2, 15, 16, 17, 4095, 4096, 65534, 65535, 65536, 65537, 131071}
@@ -201,6 +204,10 @@ func genCase(e *core.Env, r *core.RNG) caseDesc {
 		}
 		if len(d.SWrites) > 0 && x.Bool() {
 			d.PeekDown = x.Pick(1, 10, 100, 5000)
+			if x.Bool() && d.SWrites[0] <= 65535 {
+				d.PeekDown = d.SWrites[0] // exactly the first chunk
+			}
+			d.PeekDownConsume = x.Chance(1, 3)
 		}
 	}
 	return d
@@ -484,13 +491,14 @@ func tunnelCase(e *core.Env, ci int, r *core.RNG, d *caseDesc) {
 	}
 
 	var (
-		wg        sync.WaitGroup
-		srv, cli  side
-		reqAddr   conn.Addr
-		reqUser   string
-		reqPay    []byte
-		handleErr error
-		srvWErr   error
+		wg           sync.WaitGroup
+		srv, cli     side
+		consumedDown int
+		reqAddr      conn.Addr
+		reqUser      string
+		reqPay       []byte
+		handleErr    error
+		srvWErr      error
 	)
 	srv.window, cli.window = d.Window, d.Window
 	server1 := t1.cfg.StreamServer()
@@ -589,6 +597,10 @@ func tunnelCase(e *core.Env, ci int, r *core.RNG, d *caseDesc) {
 				}
 				b := make([]byte, n)
 				k, err := from.Read(b)
+				if what == "downlink" && d.PeekDownConsume {
+					consumedDown = k
+					k = 0
+				}
 				if k > 0 {
 					if _, werr := to.Write(b[:k]); werr != nil {
 						setErr(fmt.Errorf("relay %s peek forward: %w", what, werr))
@@ -683,7 +695,7 @@ func tunnelCase(e *core.Env, ci int, r *core.RNG, d *caseDesc) {
 		viol("c2s_stream_mismatch", "client->server stream differs at offset %d (got %d bytes, want %d; %d in request)", x, len(gotS), len(c2s), len(reqPay))
 		return
 	}
-	s2c := core.Pattern(tagS, 0, sum(d.SWrites))
+	s2c := core.Pattern(tagS, 0, sum(d.SWrites))[consumedDown:]
 	if x := core.FirstDiff(cli.got, s2c); x >= 0 {
 		viol("s2c_stream_mismatch", "server->client stream differs at offset %d (got %d bytes, want %d)", x, len(cli.got), len(s2c))
 		return
